@@ -11,7 +11,7 @@ RULE = ("Hypothesis model programs (<=24 handler nodes x <=4 actions, root <=6 a
         "schedule now / relative / absolute (offset and literal) / pre-built SimEvent, cancel any earlier event "
         "(pending, executed or itself), illegal requests (negative delay, literal time before the clock, NaN, "
         "None, str), priorities from a tie-rich pool, delays from a pool with zeros and exact ties, on float, int "
-        "and Duration clocks (mixed units), replications with non-zero start and events at/beyond the end. "
+        "and Duration clocks (mixed units), replications with non-zero start and events at/beyond the end; the horizon is run by start() or by one run_up_to / run_up_to_including whose bound is at or beyond the replication end. "
         "Oracle = reference DEVS interpreter (sorted pending list, same float additions): executed trace "
         "(event, handler, clock inside handler, warm-up position) equal as a sequence; per request accepted/refused "
         "as predicted and event-list size +1 / unchanged; independent invariants: each event at most once, times "
@@ -33,8 +33,26 @@ def budget(tier):
     return {"examples": 160000, "shards": 16}
 
 
+DRIVES = ["start", "start", "start", "rut-beyond", "ruti-end", "ruti-beyond"]
+
+
 def strategy(tier):
-    return progs.program_strategy(max_nodes=24 if tier == "quick" else 40)
+    # the whole horizon is run by start() or by one bounded run whose bound is at / beyond the replication end
+    return st.tuples(progs.program_strategy(max_nodes=24 if tier == "quick" else 40), st.sampled_from(DRIVES)).map(
+        lambda t: dict(t[0], drive=t[1]))
+
+
+def _whole_run(case, ref):
+    d = case.get("drive", "start")
+    if d == "start":
+        return ["start"]
+    ck = case["clock"]
+    b = ref.end if d == "ruti-end" else ref.end + (7 if ck == "int" else 12.5)
+    if ck == "duration":
+        b = [float(b).hex(), "s"]
+    elif ck == "float":
+        b = float(b).hex()
+    return ["run_up_to" if d == "rut-beyond" else "run_up_to_incl", b]
 
 
 def compare_run(out, h, ref, check_final=True):
@@ -102,7 +120,7 @@ def run_case(case):
     h = Harness(case)
     try:
         h.initialize()
-        err = h.run_piece(["start"])
+        err = h.run_piece(_whole_run(case, ref))
         if err is not None:
             out.fail("start-raised", repr(err))
         compare_run(out, h, ref)
@@ -110,7 +128,7 @@ def run_case(case):
         leaked = h.finish()
     if leaked:
         out.fail("thread-leak", leaked)
-    out.label("clock=" + case["clock"], *ref.labels)
+    out.label("clock=" + case["clock"], "drive=" + case.get("drive", "start"), *ref.labels)
     nexec = len(ref.model_trace())
     feats = len(ref.labels & {"cancel-pending", "tie-prio", "tie-order", "zero-delay", "beyond-horizon",
                               "illegal-request"})
